@@ -1459,7 +1459,7 @@ class C16(Prop):
         n0, n1 = shape[0], shape[1]
         n2 = shape[2] if len(shape) == 3 else 1
         endian = "LittleEndian" if sys.byteorder == "little" else "BigEndian"  # the model's opaque byte-order token
-        sp_tokens = [str(x) for x in spacing]  # the model's opaque spacing tokens: what an f-string prints
+        sp_tokens = [format(x, "") for x in spacing]  # the model's opaque spacing tokens: what an f-string prints
         raw, f, real_head = b"", None, ""
         if "raw" in got:
             raw = got["raw"]
